@@ -45,11 +45,25 @@ DESIGN_REF = "DESIGN.md section 4, C11 and Appendix B"
 _MM = None
 
 
-def _mm():
-    global _MM
-    if _MM is None:
-        from textx import metamodel_from_str
+_MM_FALSY = None
 
+
+def _mm(falsy=False):
+    """the packages/classes metamodel; with falsy=True Package and Cls are user classes whose instances are falsy
+    (container-like: __len__ == 0) - the expression semantics must not depend on the truth value of the objects"""
+    global _MM, _MM_FALSY
+    from textx import metamodel_from_str
+
+    if falsy:
+        if _MM_FALSY is None:
+            def init(self, **kw):
+                for k_, v_ in kw.items():
+                    setattr(self, k_, v_)
+
+            classes = [type(n, (object,), {"__init__": init, "__len__": lambda self: 0}) for n in ("Package", "Cls")]
+            _MM_FALSY = metamodel_from_str(M.GRAMMAR, classes=classes)
+        return _MM_FALSY
+    if _MM is None:
         _MM = metamodel_from_str(M.GRAMMAR)
     return _MM
 
@@ -187,7 +201,11 @@ def evaluate(case):
     if R.mixed_leading_star(expr):
         out.inconclusive = "excluded_mixed_leading_star"
         return out
-    mm = _mm()
+    # every fourth (expression, model) pair is evaluated on user classes whose instances are falsy
+    falsy = case.get("falsy", len(src) % 4 == 0)
+    mm = _mm(falsy)
+    if falsy:
+        out.cls("falsy_user_class_instances")
     text, root = M.build_class_model(case["model"])
     try:
         model = mm.model_from_str(text)
